@@ -25,6 +25,7 @@ var suitesByProp = map[string][]func(*runner, *rng){
 	"C19": {suiteDeterminism},
 	"C08": {suiteTotality},
 	"C06": {suiteTeletext},
+	"C07": {suiteConvert},
 	"C18": {suiteFaults},
 }
 
